@@ -201,7 +201,7 @@ impl VPtr {
 
 impl Clone for VPtr {
     fn clone(&self) -> Self {
-        sched::yield_point(false);
+        sched::yield_at(false, "inc");
         let o = self.obj();
         let alive = o.alive.load(Relaxed) == 1;
         let n = o.cnt.load(Relaxed) + 1;
@@ -213,7 +213,7 @@ impl Clone for VPtr {
 
 impl Drop for VPtr {
     fn drop(&mut self) {
-        sched::yield_point(false);
+        sched::yield_at(false, "dec");
         let o = self.obj();
         let alive = o.alive.load(Relaxed) == 1;
         let c = o.cnt.load(Relaxed);
